@@ -34,6 +34,10 @@ import (
 // c17File is one regular file of the tree.  Every file holds one unique
 // blocking rule, so a read of the file is observable as content.
 type c17File struct {
+	// Kind is set for the files at places derived from the instance under
+	// test (its data directory, the directory of its configuration file,
+	// the temporary directory).
+	Kind string `json:"kind,omitempty"`
 	N    int    `json:"n"`
 	Abs  string `json:"path"`
 	Host string `json:"host"`
@@ -273,6 +277,9 @@ type c17Loc struct {
 }
 
 func c17Group(class string) string {
+	if strings.HasPrefix(class, "inst-") {
+		return "instance-file"
+	}
 	switch class {
 	case "plain":
 		return "plain"
@@ -582,6 +589,7 @@ func c17PatternPool(r string) (fixed []c17Cfg, pool []string) {
 	p := func(s string) string { return r + "/" + s }
 	fixed = []c17Cfg{
 		{"empty", nil},
+		{"empty-non-nil", []string{}},
 		{"exact", []string{p("lists/a.txt")}},
 		{"dir-star", []string{p("lists/*")}},
 		{"star-suffix", []string{p("lists/*.txt")}},
@@ -631,6 +639,10 @@ type c17Env struct {
 	rep    *verifkit.Report
 	tr     *c17Tree
 	ctlURL string
+	// instSeq numbers the instances; tmpCanary is the canary file directly
+	// in os.TempDir().
+	instSeq   int
+	tmpCanary string
 	// transport reaches the control server.
 	transport *http.Transport
 	ctlSeq    int
@@ -646,7 +658,153 @@ type c17Inst struct {
 	handlers map[string]http.HandlerFunc
 	baseURL  map[bool]string
 	baseID   map[bool]int
-	allowed  map[int]bool // tree file numbers that match the patterns
+	allowed  map[int]bool // file numbers (tree and instance-derived) that match the patterns
+	seq      int
+	ownsDir  bool
+	// extras are the canary files at places derived from this instance;
+	// their numbers start at c17ExtraBase.
+	extras []*c17File
+}
+
+const (
+	c17ExtraBase    = 1000
+	c17OtherListID  = 9999
+	c17WorkDirName  = "work"
+	c17ConfFileName = "AdGuardHome.yaml"
+)
+
+var c17ExtraHostRe = regexp.MustCompile(`x(\d+)-(\d+)\.example`)
+
+// newWork creates <scratch>/work*/data, the layout of a real installation:
+// the configuration file would be <work>/AdGuardHome.yaml.
+func (e *c17Env) newWork() (dataDir string, err error) {
+	work, err := os.MkdirTemp(e.scratch, c17WorkDirName)
+	if err != nil {
+		return "", err
+	}
+	dataDir = filepath.Join(work, "data")
+	return dataDir, os.MkdirAll(dataDir, 0o755)
+}
+
+func c17RemoveWork(dataDir string) { _ = os.RemoveAll(filepath.Dir(dataDir)) }
+
+// c17ExtraPaths lists the instance-derived canary places for a data
+// directory.
+func (e *c17Env) c17ExtraPaths(dataDir string) (out [][2]string) {
+	work := filepath.Dir(dataDir)
+	return [][2]string{
+		{"<DataDir>/userfilters/x.txt", filepath.Join(dataDir, "userfilters", "x.txt")},
+		{"<DataDir>/filters/<id of no list>.txt", c17CacheFile(dataDir, c17OtherListID)},
+		{"<DataDir>/x.txt", filepath.Join(dataDir, "x.txt")},
+		{"<DataDir>/../x.txt (directory of the configuration file)", filepath.Join(work, "x.txt")},
+		{"the configuration file's own name", filepath.Join(work, c17ConfFileName)},
+		{"os.TempDir()/<file>", e.tmpCanary},
+	}
+}
+
+// c17WriteAside writes a file under another name and renames it into place,
+// so that the monitor never opens the canary name itself.
+func c17WriteAside(p string, body []byte) error {
+	if err := os.MkdirAll(filepath.Dir(p), 0o755); err != nil {
+		return err
+	}
+	if err := os.WriteFile(p+".c17tmp", body, 0o644); err != nil {
+		return err
+	}
+	return os.Rename(p+".c17tmp", p)
+}
+
+// makeExtras (re)writes the instance-derived canaries with rules unique to
+// this instance.
+func (in *c17Inst) makeExtras() error {
+	in.extras = nil
+	for j, kp := range in.env.c17ExtraPaths(in.dataDir) {
+		f := &c17File{Kind: kp[0], N: c17ExtraBase + j, Abs: kp[1], Host: fmt.Sprintf("x%d-%d.example", in.seq, j)}
+		if err := c17WriteAside(f.Abs, c17FileBody(f)); err != nil {
+			return err
+		}
+		in.extras = append(in.extras, f)
+		if c17MatchAny(in.cfg.Patterns, f.Abs) {
+			in.allowed[f.N] = true
+		}
+	}
+	return nil
+}
+
+func (in *c17Inst) fileByN(n int) *c17File {
+	if n >= c17ExtraBase && n-c17ExtraBase < len(in.extras) {
+		return in.extras[n-c17ExtraBase]
+	}
+	if n >= 1 && n <= len(in.env.tr.files) {
+		return in.env.tr.files[n-1]
+	}
+	return &c17File{N: n}
+}
+
+func (in *c17Inst) fileByAbs(abs string) *c17File {
+	if f := in.env.tr.byAbs[abs]; f != nil {
+		return f
+	}
+	for _, f := range in.extras {
+		if f.Abs == abs {
+			return f
+		}
+	}
+	return nil
+}
+
+// seenFiles returns the numbers of the canary files (tree files of the
+// current generation, instance-derived files of this instance) whose rule
+// occurs in b.
+func (in *c17Inst) seenFiles(b []byte) (ns []int) {
+	ns = in.env.tr.c17SeenFiles(b)
+	for _, m := range c17ExtraHostRe.FindAllSubmatch(b, -1) {
+		q, _ := strconv.Atoi(string(m[1]))
+		j, _ := strconv.Atoi(string(m[2]))
+		if q == in.seq && j < len(in.extras) {
+			ns = append(ns, c17ExtraBase+j)
+		}
+	}
+	return ns
+}
+
+func (in *c17Inst) bodyFiles(bodies []string) (ns []int) {
+	for _, b := range bodies {
+		ns = append(ns, in.seenFiles([]byte(b))...)
+	}
+	return ns
+}
+
+// extraLocs spells the instance-derived canaries: plainly and (all, or
+// nDotted chosen by rng per file) with dot-dot, dot, doubled separators and
+// relative to the working directory.
+func (e *c17Env) extraLocs(rng *rand.Rand, dataDir string, nDotted int) (locs []c17Loc) {
+	paths := e.c17ExtraPaths(dataDir)
+	paths = append(paths, [2]string{"cache file of another list", c17CacheFile(dataDir, 1000)})
+	for _, kp := range paths {
+		abs := kp[1]
+		dir, name := filepath.Dir(abs), filepath.Base(abs)
+		rel, err := filepath.Rel(e.tr.cwd, abs)
+		if err != nil {
+			rel = strings.Repeat("../", 14) + abs[1:]
+		}
+		dotted := []c17Loc{
+			{S: dir + "/../" + filepath.Base(dir) + "/" + name, Class: "inst-dotdot", Target: abs},
+			{S: dir + "/./" + name, Class: "inst-dot", Target: abs},
+			{S: strings.ReplaceAll(abs, "/", "//"), Class: "inst-doubled-sep", Target: abs},
+			{S: rel, Class: "inst-relative", Target: abs},
+			{S: dir + "/nope/../" + name + "/", Class: "inst-dotdot", Target: abs},
+		}
+		locs = append(locs, c17Loc{S: abs, Class: "inst-plain", Target: abs})
+		if nDotted >= len(dotted) {
+			locs = append(locs, dotted...)
+		} else {
+			for _, k := range rng.Perm(len(dotted))[:nDotted] {
+				locs = append(locs, dotted[k])
+			}
+		}
+	}
+	return locs
 }
 
 func (e *c17Env) nextCtl() (u, host string) {
@@ -670,19 +828,30 @@ func (e *c17Env) newInstAt(cfg c17Cfg, filters, allow []FilterYAML, dataDir stri
 		b, _ := json.Marshal(cfg.Patterns)
 		_, _ = os.Open(filepath.Join(e.tr.root, c17MarkerDir, url.PathEscape(string(b))))
 	}
+	e.instSeq++
+	in.seq = e.instSeq
 	if dataDir != "" {
 		in.dataDir = dataDir
-	} else if in.dataDir, err = os.MkdirTemp(e.scratch, "data"); err != nil {
+	} else if in.dataDir, err = e.newWork(); err != nil {
 		return nil, err
+	} else {
+		in.ownsDir = true
 	}
 	for _, f := range e.tr.files {
 		if c17MatchAny(cfg.Patterns, f.Abs) {
 			in.allowed[f.N] = true
 		}
 	}
+	if err = in.makeExtras(); err != nil {
+		return nil, err
+	}
+	var pats []string
+	if cfg.Patterns != nil {
+		pats = append([]string{}, cfg.Patterns...) // nil stays nil, empty stays empty
+	}
 	in.d, err = New(&Config{
 		FilteringEnabled: true,
-		SafeFSPatterns:   append([]string(nil), cfg.Patterns...),
+		SafeFSPatterns:   pats,
 		DataDir:          in.dataDir,
 		HTTPClient:       &http.Client{Timeout: 10 * time.Second, Transport: e.transport},
 		ConfigModified:   func() {},
@@ -693,8 +862,8 @@ func (e *c17Env) newInstAt(cfg c17Cfg, filters, allow []FilterYAML, dataDir stri
 		WhitelistFilters: allow,
 	}, nil)
 	if err != nil {
-		if dataDir == "" {
-			_ = os.RemoveAll(in.dataDir)
+		if in.ownsDir {
+			c17RemoveWork(in.dataDir)
 		}
 		return nil, err
 	}
@@ -704,7 +873,9 @@ func (e *c17Env) newInstAt(cfg c17Cfg, filters, allow []FilterYAML, dataDir stri
 
 func (in *c17Inst) close() {
 	in.d.Close()
-	_ = os.RemoveAll(in.dataDir)
+	if in.ownsDir {
+		c17RemoveWork(in.dataDir)
+	}
 }
 
 // call invokes a captured handler.  A panic of the handler is returned as
@@ -772,12 +943,17 @@ func (in *c17Inst) storedContent() (byFile map[string][]int) {
 		if err != nil || info.IsDir() {
 			return nil
 		}
+		for _, x := range in.extras {
+			if x.Abs == p {
+				return nil // the canary itself; the monitor never opens it
+			}
+		}
 		b, rerr := os.ReadFile(p)
 		if rerr != nil {
 			return nil
 		}
 		in.env.rep.Event("stored_files_scanned")
-		if ns := in.env.tr.c17SeenFiles(b); len(ns) > 0 {
+		if ns := in.seenFiles(b); len(ns) > 0 {
 			byFile[p] = ns
 		}
 		return nil
@@ -819,6 +995,9 @@ func (in *c17Inst) probe(extra ...string) (hit map[string][]int) {
 	for _, f := range in.env.tr.files {
 		ask(f.Host)
 	}
+	for _, f := range in.extras {
+		ask(f.Host)
+	}
 	for _, h := range extra {
 		ask(h)
 	}
@@ -840,6 +1019,11 @@ func (in *c17Inst) hostFile(h string) *c17File {
 			return f
 		}
 	}
+	for _, f := range in.extras {
+		if f.Host == h {
+			return f
+		}
+	}
 	return nil
 }
 
@@ -850,6 +1034,9 @@ func (in *c17Inst) cleanFilters(keep ...int) {
 	ents, _ := os.ReadDir(dir)
 outer:
 	for _, e := range ents {
+		if e.Name() == strconv.Itoa(c17OtherListID)+".txt" {
+			continue
+		}
 		for _, k := range keep {
 			if e.Name() == strconv.Itoa(k)+".txt" {
 				continue outer
@@ -900,11 +1087,11 @@ func (in *c17Inst) judge(loc c17Loc, ex c17Expect, ob *c17Obs) {
 			"location_quoted": strconv.Quote(loc.S), "oracle": ex, "observed": ob, "tree_root": tr.root}
 	}
 	targetExists := false
-	if f := tr.byAbs[ex.Primary]; f != nil {
+	if f := in.fileByAbs(ex.Primary); f != nil {
 		targetExists = true
 	}
 	for _, r := range c17Readings(tr.cwd, loc.S) {
-		if tr.byAbs[r] != nil {
+		if in.fileByAbs(r) != nil {
 			targetExists = true
 		}
 	}
@@ -972,7 +1159,7 @@ func (in *c17Inst) judge(loc c17Loc, ex c17Expect, ob *c17Obs) {
 	}
 	sort.Ints(nums)
 	for _, n := range nums {
-		f := tr.files[n-1]
+		f := in.fileByN(n)
 		if in.allowed[n] {
 			rep.Event("reads_observed_of_files_inside_patterns")
 			continue
@@ -1014,9 +1201,9 @@ func (in *c17Inst) judge(loc c17Loc, ex c17Expect, ob *c17Obs) {
 		rep.Unspec("pattern list with a malformed pattern that was accepted at start: only soundness asserted")
 		return
 	}
-	if ex.Strict && ex.Plain && tr.byAbs[ex.Primary] != nil {
+	if ex.Strict && ex.Plain && in.fileByAbs(ex.Primary) != nil {
 		rep.Event("reads_expected(plain allowed file)")
-		f := tr.byAbs[ex.Primary]
+		f := in.fileByAbs(ex.Primary)
 		if !ob.Accepted || ob.RulesCount == 0 || len(seen[f.N]) == 0 {
 			rep.Violate("plain-allowed-rejected:"+entry,
 				fmt.Sprintf("%s of the plain path %s, which matches a safe pattern and holds a valid list, was not read (accepted=%v rules=%d)",
@@ -1045,13 +1232,6 @@ func (in *c17Inst) judge(loc c17Loc, ex c17Expect, ob *c17Obs) {
 	}
 }
 
-func (tr *c17Tree) c17BodyFiles(bodies []string) (ns []int) {
-	for _, b := range bodies {
-		ns = append(ns, tr.c17SeenFiles([]byte(b))...)
-	}
-	return ns
-}
-
 func c17OK(st int) bool { return st >= 200 && st < 300 }
 
 // observe fills the content channels of ob for the list currently holding
@@ -1061,7 +1241,7 @@ func (in *c17Inst) observe(ob *c17Obs, s string, white bool, ctl string, forcePr
 	if ctl != "" {
 		want = append(want, ctl)
 	}
-	if f := in.env.tr.byAbs[s]; f != nil && in.allowed[f.N] {
+	if f := in.fileByAbs(s); f != nil && in.allowed[f.N] {
 		want = append(want, f.Host)
 	}
 	for _, e := range in.status() {
@@ -1071,7 +1251,7 @@ func (in *c17Inst) observe(ob *c17Obs, s string, white bool, ctl string, forcePr
 		}
 	}
 	ob.StoredFiles = in.storedContent()
-	ob.BodyFiles = in.env.tr.c17BodyFiles(ob.Bodies)
+	ob.BodyFiles = in.bodyFiles(ob.Bodies)
 	if ob.Accepted || ob.Listed || len(ob.StoredFiles) > 0 || forceProbe {
 		ob.CheckHost = in.probe(want...)
 		// The handlers also queue an asynchronous engine rebuild; a rebuild
@@ -1210,8 +1390,21 @@ func c17CacheFile(dataDir string, id int) string {
 //
 // The oracle is the one of the plain refresh, for the patterns of the
 // instance in force; "taken" means that the cached file was replaced.
-func (e *c17Env) refreshBatch(cfg c17Cfg, locs []c17Loc, whites []bool, mode string) {
+func (e *c17Env) refreshBatch(rng *rand.Rand, cfg c17Cfg, locs []c17Loc, whites []bool, mode string) {
 	rep := e.rep
+	dataDir, err := e.newWork()
+	if err != nil {
+		rep.Inconcl("could not create a data directory: " + err.Error())
+		return
+	}
+	defer c17RemoveWork(dataDir)
+	// Locations derived from this very data directory.
+	locs = append([]c17Loc(nil), locs...)
+	whites = append([]bool(nil), whites...)
+	for i, l := range e.extraLocs(rng, dataDir, 2) {
+		locs = append(locs, l)
+		whites = append(whites, i%3 == 0)
+	}
 	mkLists := func(urlOf func(i int) string) (filters, allow []FilterYAML) {
 		for i := range locs {
 			f := FilterYAML{Enabled: true, URL: urlOf(i), Name: fmt.Sprintf("hand-edited %d", i), Filter: Filter{ID: 1000 + i}}
@@ -1225,7 +1418,6 @@ func (e *c17Env) refreshBatch(cfg c17Cfg, locs []c17Loc, whites []bool, mode str
 	}
 	entryName := "refresh"
 	rounds := 2
-	dataDir := ""
 	if mode != "" {
 		entryName = "refresh(restart:" + mode + ")"
 		rounds = 1
@@ -1239,10 +1431,7 @@ func (e *c17Env) refreshBatch(cfg c17Cfg, locs []c17Loc, whites []bool, mode str
 	}
 	switch mode {
 	case "cache-prepopulated":
-		var err error
-		if dataDir, err = os.MkdirTemp(e.scratch, "data"); err == nil {
-			err = os.MkdirAll(filepath.Join(dataDir, filterDir), 0o755)
-		}
+		err = os.MkdirAll(filepath.Join(dataDir, filterDir), 0o755)
 		for i := 0; err == nil && i < len(locs); i++ {
 			err = os.WriteFile(c17CacheFile(dataDir, 1000+i),
 				[]byte(fmt.Sprintf("! Title: cached %d\n||cache-%d.example^\n", i, i)), 0o644)
@@ -1264,7 +1453,7 @@ func (e *c17Env) refreshBatch(cfg c17Cfg, locs []c17Loc, whites []bool, mode str
 			cfg1 = c17Cfg{Kind: cfg.Kind, Patterns: append(e.tr.c17AllPatterns(), cfg.Patterns...)}
 		}
 		f1, a1 := mkLists(urlOf)
-		in1, err := e.newInst(cfg1, f1, a1)
+		in1, err := e.newInstAt(cfg1, f1, a1, dataDir)
 		if err != nil && cfg.Kind == "malformed-pattern" {
 			rep.Event("malformed_pattern_lists_refused_at_start")
 			return
@@ -1274,11 +1463,9 @@ func (e *c17Env) refreshBatch(cfg c17Cfg, locs []c17Loc, whites []bool, mode str
 		}
 		refreshBoth(in1)
 		in1.d.Close()
-		dataDir = in1.dataDir
 		if mode == "patterns-changed" {
 			if err = e.tr.bump(); err != nil {
 				rep.Inconcl("could not rewrite the tree files: " + err.Error())
-				_ = os.RemoveAll(dataDir)
 				return
 			}
 		}
@@ -1295,9 +1482,6 @@ func (e *c17Env) refreshBatch(cfg c17Cfg, locs []c17Loc, whites []bool, mode str
 	filters, allow := mkLists(func(i int) string { return locs[i].S })
 	in, err := e.newInstAt(cfg, filters, allow, dataDir)
 	if err != nil {
-		if dataDir != "" {
-			_ = os.RemoveAll(dataDir)
-		}
 		if cfg.Kind == "malformed-pattern" {
 			rep.Event("malformed_pattern_lists_refused_at_start")
 			return
@@ -1355,7 +1539,7 @@ func (e *c17Env) refreshBatch(cfg c17Cfg, locs []c17Loc, whites []bool, mode str
 					}
 				}
 			}
-			ob.BodyFiles = e.tr.c17BodyFiles(bodies)
+			ob.BodyFiles = in.bodyFiles(bodies)
 			// At refresh nothing is "accepted" by a status code; the list
 			// counts as taken when it has rules or a stored file.
 			ob.Accepted = ob.RulesCount > 0 || len(ob.StoredFiles) > 0
@@ -1399,7 +1583,7 @@ func (e *c17Env) refreshBatch(cfg c17Cfg, locs []c17Loc, whites []bool, mode str
 					}
 					if !attributed {
 						e.rep.Violate("unsafe-read:refresh:unattributed", "content of a file outside the patterns in "+p,
-							map[string]any{"safe_fs_patterns": cfg.Patterns, "file": e.tr.files[n-1], "stored_in": p, "batch": locs, "restart_mode": mode})
+							map[string]any{"safe_fs_patterns": cfg.Patterns, "file": in.fileByN(n), "stored_in": p, "batch": locs, "restart_mode": mode})
 					}
 				}
 			}
@@ -1591,12 +1775,16 @@ func (e *c17Env) runConfig(rng *rand.Rand, cfg c17Cfg, nRandom int) {
 		rep.Sample(map[string]any{"safe_fs_patterns": cfg.Patterns, "tree_files_inside_patterns": nAllowed,
 			"locations": len(locs), "first_decorated_locations": locs[len(e.tr.files):min(len(locs), len(e.tr.files)+5)]})
 	}
-	for i, l := range locs {
+	// The instance-derived places first (in every spelling), then the tree.
+	own := e.extraLocs(rng, in.dataDir, 99)
+	own = append(own, c17Loc{S: c17CacheFile(in.dataDir, in.baseID[false]), Class: "inst-plain",
+		Target: c17CacheFile(in.dataDir, in.baseID[false])})
+	for i, l := range append(own, locs...) {
 		white := rng.Intn(3) == 0
 		force := i%16 == 0
 		in.opAdd(l, white, force)
 		ok := in.opSet(l, white, false, force)
-		if ok && (i%3 == 0 || l.Class == "plain" || l.Class == "raw-match-only") {
+		if ok && (i%3 == 0 || l.Class == "plain" || l.Class == "raw-match-only" || strings.HasPrefix(l.Class, "inst-")) {
 			ok = in.opSet(l, !white, true, force)
 		}
 		if !ok {
@@ -1633,9 +1821,9 @@ func (e *c17Env) runConfig(rng *rand.Rand, cfg c17Cfg, nRandom int) {
 		for i := range whites {
 			whites[i] = rng.Intn(3) == 0
 		}
-		e.refreshBatch(cfg, part, whites, "")
+		e.refreshBatch(rng, cfg, part, whites, "")
 		for _, mode := range c17RestartModes {
-			e.refreshBatch(cfg, part, whites, mode)
+			e.refreshBatch(rng, cfg, part, whites, mode)
 		}
 	}
 }
@@ -1674,9 +1862,11 @@ func c17Run(t *testing.T, rep *verifkit.Report, strace bool) {
 		t.Fatal(err)
 	}
 	t.Chdir(tr.cwd)
+	tmpCanary := filepath.Join(filepath.Dir(root), "TestVerifC17-tmpcanary-"+strings.TrimPrefix(filepath.Base(root), "TestVerifC17-")+".txt")
+	t.Cleanup(func() { _ = os.Remove(tmpCanary); _ = os.Remove(tmpCanary + ".c17tmp") })
 	tp, stop := c17ControlServer()
 	defer stop()
-	env := &c17Env{t: t, rep: rep, tr: tr, ctlURL: "http://127.0.0.1:8053", transport: tp, scratch: scratch, strace: strace}
+	env := &c17Env{t: t, rep: rep, tr: tr, ctlURL: "http://127.0.0.1:8053", transport: tp, scratch: scratch, strace: strace, tmpCanary: tmpCanary}
 	rep.Assume("no symbolic links are involved (the tree is created by the monitor; the cleaned absolute path is the file)")
 	rep.Assume("a read is recognised by content: every tree file holds a unique rule, looked for in stored list files, response bodies, rule counts and CheckHost")
 
@@ -1714,7 +1904,10 @@ func c17Run(t *testing.T, rep *verifkit.Report, strace bool) {
 	for _, k := range []string{"match:raw-string-only", "match:cleaned-path-only", "entry:add_url", "entry:set_url",
 		"entry:set_url(disabled-then-enabled)", "entry:refresh", "entry:refresh(second)",
 		"entry:refresh(restart:cache-prepopulated)", "entry:refresh(restart:after-real-refresh)",
-		"entry:refresh(restart:patterns-changed)"} {
+		"entry:refresh(restart:patterns-changed)",
+		"spelling:inst-plain/add_url", "spelling:inst-plain/set_url", "spelling:inst-plain/refresh",
+		"spelling:inst-dotdot/add_url", "spelling:inst-dotdot/refresh(restart:cache-prepopulated)",
+		"spelling:inst-plain/refresh(restart:patterns-changed)"} {
 		if rep.ClassCount(k) < 30 {
 			rep.Inconcl(fmt.Sprintf("class %q has only %d cases", k, rep.ClassCount(k)))
 		}
